@@ -35,6 +35,10 @@ def make (c):
     rng  = np.random.default_rng ([c ['seed'], 3, c ['i']])
     spec = gen.fam_ground (rng, seg_hi = 1 / 20.5, shift = bool (rng.random () < 0.5))
     gen.add_sources (rng, spec, nmax = 3)
+    rl = np.random.default_rng ([c ['seed'], 31, c ['i']])
+    if rl.random () < 0.25:
+        # lossy conductors: the wire and its image carry the same series impedance per length
+        spec ['loads'] = [dict (k = 'skin', cond = float (10 ** rl.uniform (3, 7.8)), tag = None)]
     return gen.clean (spec)
 # end def make
 
@@ -63,7 +67,7 @@ def mirrored (spec):
         else:
             src.append (dict (at = at.tolist (), dir = d.tolist (), v = list (v)))
             src.append (dict (at = (at * MIR).tolist (), dir = (d * MIR).tolist (), v = [-v [0], -v [1]]))
-    return dict (f = spec ['f'], geo = geo, media = None, src = src, loads = [], fam = spec.get ('fam'))
+    return dict (f = spec ['f'], geo = geo, media = None, src = src, loads = [dict (l) for l in spec.get ('loads') or []], fam = spec.get ('fam'))
 # end def mirrored
 
 def check (c):
